@@ -29,6 +29,11 @@
                                                            h = draws standing for an observed column of the row;
                                                            plentiful_failure_bound: at most a 2^-(att+1) fraction
                                                            when at least half of the draws miss.
+                                                           free_rows_never_warned: the deterministic part -- a call whose
+                                                           rows have no interaction at all never warns, on EVERY draw
+                                                           stream and for every matrix size below 2^32 x 2^32 (also when
+                                                           n_rows * n_cols exceeds 2^32: the key does not fold cells of
+                                                           different rows together).
         PARTIAL: these are counts over all streams, i.e. the probability (h/N)^(att+1) under an IDEAL
         source that serves the initial draw and every retry level from one stream (the extractor checks
         that the source hands ONE generator through all levels; a level re-seeded from a seed value would
@@ -40,7 +45,7 @@
    * "every eligible column can be drawn"               -> every_eligible_reachable *)
 From Coq Require Import ZArith List Bool.
 From LK Require Import Gen.C20_shape Model.C20_sampling Proofs.C20_key Proofs.C20_resample Proofs.C20_sample
-  Proofs.C20_history Proofs.C20_reach Proofs.C20_main Proofs.C20_count.
+  Proofs.C20_history Proofs.C20_reach Proofs.C20_main Proofs.C20_count Proofs.C20_big.
 Import ListNotations.
 Open Scope Z_scope.
 
@@ -132,6 +137,16 @@ Theorem plentiful_failure_bound : forall m w att r,
 Proof. exact plentiful_bound_l. Qed.
 Print Assumptions plentiful_failure_bound.
 
+(* rows without any interaction: unobserved columns are as plentiful as they can be; no draw stream makes the
+   call warn, whatever the other rows hold and however large the matrix is (numbers below 2^32) *)
+Theorem free_rows_never_warned : forall m w att n rows ds out warns rest,
+  wf m -> rows_ok rows -> draws_ok m w ds ->
+  sample m w true att n rows ds = Ok (out, warns, rest) ->
+  (forall r c, In r rows -> ~ observed m r c) ->
+  warns = [].
+Proof. exact free_rows_never_warned_l. Qed.
+Print Assumptions free_rows_never_warned.
+
 Theorem popular_draws_occur : forall m verify att n rows ds out warns rest,
   draws_ok m Popular ds ->
   sample m Popular verify att n rows ds = Ok (out, warns, rest) -> Forall (Forall (occurs m)) out.
@@ -159,6 +174,28 @@ Example c20_count_nonvacuous :
   let m := {| m_ncols := 2; m_pairs := [(0, 0)] |} in
   failing_streams m Uniform 1 0 = [[0; 0]] /\ length (all_streams m Uniform 2) = 4%nat /\ observed_draws m Uniform 0 = [0].
 Proof. vm_compute. repeat split. Qed.
+
+(* non-vacuity at a size where cell numbers exceed 2^32: 70000 columns, row 3644 observes columns 100 and 101, row
+   65000 observes nothing.  The row-major numbers of (65000, 47396) and (3644, 100) differ by exactly 2^32, yet the draw
+   47396 is accepted for row 65000 at once; the draw 100 for row 3644 is an observed cell and is redrawn. *)
+Example c20_huge_nonvacuous :
+  let m := {| m_ncols := 70000; m_pairs := [(3644, 100); (3644, 101)] |} in
+  let rows := [65000; 65000; 3644] in
+  let ds := [47396; 47397; 100; 5] in
+  wf m /\ rows_ok rows /\ draws_ok m Uniform ds /\
+  65000 * 70000 + 47396 = 3644 * 70000 + 100 + 2 ^ 32 /\
+  sample m Uniform true 1 None rows ds = Ok ([[47396; 47397; 5]], [], []) /\
+  sample m Uniform true 0 None [65000; 65000] [47396; 47397] = Ok ([[47396; 47397]], [], []).
+Proof.
+  cbv zeta. split; [|split; [|split; [|split; [|split]]]].
+  - split; [unfold B32; cbn; split; [discriminate|reflexivity]|].
+    repeat constructor; cbn; try discriminate; reflexivity.
+  - repeat constructor; cbn; try discriminate; reflexivity.
+  - repeat constructor; cbn; try discriminate; reflexivity.
+  - reflexivity.
+  - vm_compute. reflexivity.
+  - vm_compute. reflexivity.
+Qed.
 
 Example c20_nonvacuous :
   let m := {| m_ncols := 3; m_pairs := [(0, 0); (0, 1); (0, 2); (1, 1); (2, 2)] |} in
